@@ -232,6 +232,8 @@ def judge(case):
             except Exception as e:
                 mu.fail("PG:history-raises-" + type(e).__name__, "negate / hash / move raised %r" % e)
                 return mu.result()
+            # the negation taken before the move stays where it was, a valid polygon of its own
+            _check_polygon(G, mu, q0, [K.fl(K.add(v, shift)) for v in vs], "PG:negation-taken-before-the-original-moved")
         _check_polygon(G, mu, pg, [K.fl(v) for v in vs], "PG")
         return mu.result()
     if k == "PH":
